@@ -261,9 +261,21 @@ func stability(list []int, later []int, same []int) input {
 // relative to the two parent versions (stamped P1 < P2).
 var lateKinds = []string{"normal", "starts-after-P1", "starts-after-P2", "deleted-between-P1-and-P2", "no-history", "two-versions-same-second-after-P1"}
 
-func lateChild(kinds []int) input {
+func lateChild(kinds []int) input { return lateChildCommitted(kinds, 0) }
+
+// lateChildCommitted: committed > 0 stamps a commit time (timestamp + 20 s) on
+// SOME versions only - pattern 1: child versions with (version + child) even
+// and the first parent version; pattern 2: every version of the first child
+// and the second parent version; pattern 3: odd versions of every child, no
+// parent. Histories that mix versions with and without a commit time are
+// unusual and valid (older data has none).
+func lateChildCommitted(kinds []int, committed int) input {
 	return func() (osm.Ways, osm.Relations, *osm.HistoryDatasource) {
-		d := func(day int) time.Time { return time.Date(2011, 1, 1, 0, 0, 0, 0, time.UTC).AddDate(0, 0, day) }
+		year := 2011
+		if committed > 0 {
+			year = 2014 // commit times before osm.CommitInfoStart (2012-09-12) are ignored by the library
+		}
+		d := func(day int) time.Time { return time.Date(year, 1, 1, 0, 0, 0, 0, time.UTC).AddDate(0, 0, day) }
 		ds := &osm.HistoryDatasource{Nodes: map[osm.NodeID]osm.Nodes{}}
 		p1, p2 := d(100), d(200)
 		w1 := &osm.Way{ID: 7, Version: 1, Visible: true, ChangesetID: 50, Timestamp: p1}
@@ -273,7 +285,12 @@ func lateChild(kinds []int) input {
 			w1.Nodes = append(w1.Nodes, osm.WayNode{ID: id})
 			w2.Nodes = append(w2.Nodes, osm.WayNode{ID: id})
 			mk := func(v int, t time.Time, visible bool) *osm.Node {
-				return &osm.Node{ID: id, Version: v, Visible: visible, ChangesetID: osm.ChangesetID(100*(c+1) + v), Timestamp: t, Lat: float64(v), Lon: float64(c + 1)}
+				n := &osm.Node{ID: id, Version: v, Visible: visible, ChangesetID: osm.ChangesetID(100*(c+1) + v), Timestamp: t, Lat: float64(v), Lon: float64(c + 1)}
+				if (committed == 1 && (v+c)%2 == 0) || (committed == 2 && c == 0) || (committed == 3 && v%2 == 1) {
+					ct := t.Add(20 * time.Second)
+					n.Committed = &ct
+				}
+				return n
 			}
 			switch lateKinds[k] {
 			case "normal":
@@ -289,6 +306,13 @@ func lateChild(kinds []int) input {
 				ds.Nodes[id] = osm.Nodes{mk(1, d(30+c), true), mk(2, d(135), true), mk(3, d(135), true), mk(4, d(290+c), true)}
 			}
 		}
+		if committed == 1 {
+			ct := p1.Add(20 * time.Second)
+			w1.Committed = &ct
+		} else if committed == 2 {
+			ct := p2.Add(20 * time.Second)
+			w2.Committed = &ct
+		}
 		// the first node closes the way: one child at two indexes
 		w1.Nodes = append(w1.Nodes, osm.WayNode{ID: 1})
 		w2.Nodes = append(w2.Nodes, osm.WayNode{ID: 1})
@@ -298,7 +322,7 @@ func lateChild(kinds []int) input {
 
 func main() {
 	kit.Main("C12", "model_checking", func(r *kit.Run) {
-		r.Rule("every iteration order (all n! orders, free explorer choices) of the child map in core.Compute for (i) every history of edit-alphabet spaces (gen/histsim: way over 3 nodes, relation over 4 members, repeated-node churn way) up to the tier's depth and (ii) a stability family: one way version over 2-4 children (one repeated) with 13-24 updates and every pattern of equal one-second timestamps; (iii) a late-child family: two parent versions over 2-3 children whose histories are normal / start after a parent version / contain a deleted version between the parents / are missing / have same-second versions, under four option sets; (iv) a re-annotate family: parents annotated once, then again with ChildFilter over every subset of the children; histories of (i) run under the default options and with IgnoreInconsistency; " +
+		r.Rule("every iteration order (all n! orders, free explorer choices) of the child map in core.Compute for (i) every history of edit-alphabet spaces (gen/histsim: way over 3 nodes, relation over 4 members, repeated-node churn way) up to the tier's depth and (ii) a stability family: one way version over 2-4 children (one repeated) with 13-24 updates and every pattern of equal one-second timestamps; (iii) a late-child family: two parent versions over 2-3 children whose histories are normal / start after a parent version / contain a deleted version between the parents / are missing / have same-second versions, under four option sets; (v) a mixed-committed family: the late-child histories with a commit time on some versions only; (iv) a re-annotate family: parents annotated once, then again with ChildFilter over every subset of the children; histories of (i) run under the default options and with IgnoreInconsistency; " +
 			"oracle: result identical to the canonical-order result (or both fail) and every update list sorted by (index, timestamp, version); non-vacuous = at least one order choice was made and the history has >= 2 updates; states = execution-tree nodes (order choices), transitions = choices taken")
 		r.Assume("vinst replaces only the map range in compute.go (vsched.MapKeys); outside a controlled execution the canonical order is sorted keys")
 		var scs []vexplore.Scenario
@@ -384,6 +408,34 @@ func main() {
 			}
 		}
 		counts["late-child"] = nlate
+		// mixed-committed family: the same histories with a commit time on some
+		// versions only, default options and both ignore options
+		nmix := 0
+		for c := 2; c <= 3; c++ {
+			total := 1
+			for i := 0; i < c; i++ {
+				total *= len(lateKinds)
+			}
+			for code := 0; code < total; code++ {
+				kinds := make([]int, c)
+				x := code
+				for i := range kinds {
+					kinds[i] = x % len(lateKinds)
+					x /= len(lateKinds)
+				}
+				for pat := 1; pat <= 3; pat++ {
+					if r.Quick() && c == 3 && pat != 1+code%3 {
+						continue
+					}
+					for _, opt := range []int{0, 3} {
+						name := fmt.Sprintf("mixed-committed kinds=%v pattern=%d", kinds, pat)
+						add(scenario(name, fmt.Sprintf("mixed-committed/%d-children", c), c, lateChildCommitted(kinds, pat), opt))
+						nmix++
+					}
+				}
+			}
+		}
+		counts["mixed-committed"] = nmix
 		// re-annotate family: annotate, then annotate again with a ChildFilter
 		// over every subset of the children (skipped children at lower and at
 		// higher indexes than recomputed ones), every map order of both passes
